@@ -15,7 +15,7 @@
    2b21c7f (head switch in one batch), 3eba51b (side chain checks the signature),
    599b875 (verifyAllSideChainBlocks stores each fork block once it is verified),
    0702a5f (a block already canonical at or below the head does not become the head again). *)
-From VF.C11 Require Import Model ProofsA ProofsB ProofsC ProofsD ProofsE ProofsF ProofsG ProofsH ProofsI ProofsJ ProofsK.
+From VF.C11 Require Import Model ProofsA ProofsB ProofsC ProofsD ProofsE ProofsF ProofsG ProofsH ProofsI ProofsJ ProofsK ProofsL ProofsM.
 Local Open Scope N_scope.
 
 Definition wf (t : tree) (g : block) : Prop :=
@@ -106,6 +106,39 @@ Theorem C11_not_wedged_linear_batch :
       cur free = bid (last chain hb).
 Proof. intros t g fuel hist f k hb chain [A [B [C D]]]. exact (not_wedged_linear_run t g A B C D fuel hist f k hb chain). Qed.
 Print Assumptions C11_not_wedged_linear_batch.
+
+(* Proved for batches whose first head switch REORGANISES: the first block b1 is a
+   good new block on ANY stored block p whose state is on disk - the head c0 can
+   be anywhere: on another fork (a side chain with state becomes canonical), on a
+   shorter chain with stale index entries between it and p (the old chain is
+   re-extended after a switch to a shorter fork), or several blocks below p on the
+   same chain (reorg with an empty old chain) - and the rest of the batch extends
+   b1 linearly.  Side conditions: no index entries above p; reorg, if it is
+   needed, finds the fork point; InsertChain's version-state check finds a
+   canonical header one below the batch.  Killed after ANY database write of the
+   import (b1's block batch, state commit or the one batch that re-organises the
+   chain, or any write of the later blocks), the restart succeeds and offering the
+   batch again leaves the node with EXACTLY the database and head of the node that
+   never crashed.  [g2 d p b1] is d after b1's block batch and state commit. *)
+Theorem C11_not_wedged_reorganising_batch :
+  forall t g fuel hist f k c0 p b1 q rest, wf t g ->
+    let s0 := run t fuel (init_st g) hist in
+    budget s0 = None ->
+    info t (d_headB (disk_of s0)) = Some c0 ->
+    info t (bid b1) = Some b1 -> bnum b1 <> 0 -> bhv b1 = 0 -> bbv b1 = 0 ->
+    get_block t (disk_of s0) (bpar b1) (bnum b1 - 1) = Some p -> In (broot p) (d_state (disk_of s0)) ->
+    (forall n, bnum p < n -> canon (disk_of s0) n = None) ->
+    (bpar b1 = bid c0 \/ reorg t (g2 (disk_of s0) p b1) c0 b1 <> None) ->
+    lin_chain t b1 rest ->
+    get_header_by_number t (disk_of s0) (bnum b1 - 1) = Some q ->
+    let free := fst (InsertChain t (S f) s0 (b1 :: rest)) in
+    let sk := fst (InsertChain t (S f) (with_budget (Some k) s0) (b1 :: rest)) in
+    exists d h, recover t (disk_of sk) = Some (d, h) /\
+      let again := fst (InsertChain t (S f) (fresh d h) (b1 :: rest)) in
+      disk_of again = disk_of free /\ cur again = cur free /\ budget again = None /\
+      cur free = bid (last rest b1).
+Proof. intros t g fuel hist f k c0 p b1 q rest [A [B [C D]]]. exact (not_wedged_reorg_run t g A B C D fuel hist f k c0 p b1 q rest). Qed.
+Print Assumptions C11_not_wedged_reorganising_batch.
 
 (* The single-block case with the weaker side condition "the block's own height is
    free" (stale entries higher up are allowed).
@@ -204,6 +237,29 @@ Definition reoffer (t : tree) (s0 : st) (batch : list N) (further : list N) (k :
     (err_code (snd (InsertChain t 6 (fresh d h) (blocks_of t batch))), cur (fst (InsertChain t 6 s1 (blocks_of t further))))
   | None => (99, 0)
   end.
+(* the hypotheses of the reorganising-batch theorem are satisfiable: G-2-3-4 (head 4),
+   then [2;5] switches to the shorter fork 2-5 (index entry 3 -> 4 stays, stale);
+   the batch [6;7] on block 4 re-extends the old chain: reorg(5, 6) with old chain [5]
+   and new chain [6;4;3]; every crash point of that import ends on 7 after the re-offer *)
+Definition ex_tree3 : tree :=
+  [mkB 1 0 0 1 [] 0 0; mkB 2 1 1 2 [1] 0 0; mkB 3 2 2 3 [2] 0 0; mkB 4 3 3 4 [3] 0 0;
+   mkB 5 2 2 5 [4] 0 0; mkB 6 4 4 6 [5] 0 0; mkB 7 6 5 6 [] 0 0].
+Example C11_nonvacuous_reorganising_batch :
+  let s0 := run ex_tree3 6 (init_st ex_g) [[2;3;4]; [2;5]] in
+  let c0 := mkB 5 2 2 5 [4] 0 0 in let p := mkB 4 3 3 4 [3] 0 0 in let b1 := mkB 6 4 4 6 [5] 0 0 in
+  budget s0 = None /\ info ex_tree3 (d_headB (disk_of s0)) = Some c0 /\
+  d_canon (disk_of s0) = [(2, 5); (3, 4); (1, 2); (0, 1)] /\
+  get_block ex_tree3 (disk_of s0) (bpar b1) (bnum b1 - 1) = Some p /\ has_state (disk_of s0) (broot p) = true /\
+  bpar b1 <> bid c0 /\ reorg ex_tree3 (g2 (disk_of s0) p b1) c0 b1 <> None /\
+  lin_chain ex_tree3 b1 [mkB 7 6 5 6 [] 0 0] /\
+  (exists q, get_header_by_number ex_tree3 (disk_of s0) (bnum b1 - 1) = Some q) /\
+  d_canon (disk_of (fst (InsertChain ex_tree3 6 s0 (blocks_of ex_tree3 [6;7])))) = [(5, 7); (4, 6); (3, 4); (2, 3); (1, 2); (0, 1)] /\
+  map (reoffer ex_tree3 s0 [6;7] []) (seq 0 8) = [(0, 7); (0, 7); (0, 7); (0, 7); (0, 7); (0, 7); (0, 7); (0, 7)].
+Proof.
+  vm_compute. repeat split; try reflexivity; try discriminate. eexists; reflexivity.
+Qed.
+Print Assumptions C11_nonvacuous_reorganising_batch.
+
 Example C11_regression_witnesses :
   (* shorter-fork switch [2;5] on G-2-3-4, then block 7: every crash point ends on 7 *)
   (let s0 := run w2_tree 6 (init_st ex_g) [[2;3;4]] in
